@@ -1,6 +1,8 @@
 import SakuraVerif.Model.ControlFlow
 import SakuraVerif.Gen.Consts
 import SakuraVerif.Lemmas.ScriptStack
+import SakuraVerif.Lemmas.ScriptScope
+import SakuraVerif.Lemmas.ScriptFlags
 /-! # C11 (mechanism level) — IF/FOR/WHILE/BREAK/CONTINUE behave like the unrolled program
 
 `execWhile` / `execFor` model `runner::exec_while` / `exec_for` literally, parametric in the effect
@@ -138,6 +140,37 @@ theorem C11_stack_discipline (fns : List Fn) (hfn : FnsOK fns) (f : Nat) :
     (∀ t s, Stm fns t → s.stack = [] → s.needRet = false → (execTok fns f t s).stack = [] ∧ (execTok fns f t s).needRet = false) ∧
     (∀ t s, Arg fns t → s.stack = [] → s.needRet = true → (execTok fns f t s).stack.length ≤ 1 ∧ (execTok fns f t s).needRet = true) :=
   ⟨(allOK fns hfn f).1, (allOK fns hfn f).2.2.1⟩
+
+open Sakura.Sx in
+/-- **parameters and local declarations never change the caller's variables**: after the call arm — whatever the arguments and
+    the body do: declarations, assignments, nested calls, RETURN from inside loops — the stack of variable scopes is exactly the
+    caller's again (no hypothesis on the tokens or on the function table) -/
+theorem C11_call_keeps_callers_scopes (fns : List Fn) (f : Nat) (vi tag line : Int) (vs : Option (List Nat)) (data : List Dat)
+    (ch : Option (List Tok)) (s : St) :
+    (execTok fns f (.mk .callUser vi tag line vs data ch) s).scopes = s.scopes :=
+  call_scopes fns f vi tag line vs data ch s
+
+open Sakura.Sx in
+/-- no statement, loop or expression touches any scope below the innermost one -/
+theorem C11_only_innermost_scope_written (fns : List Fn) (f : Nat) (l : List Tok) (s : St) :
+    (execList fns f l s).scopes.length = s.scopes.length ∧ (execList fns f l s).scopes.drop 1 = s.scopes.drop 1 :=
+  exec_frame fns f l s
+
+open Sakura.Sx in
+/-- **BREAK and CONTINUE affect only the innermost enclosing loop**: whatever the body is (any tokens), a WHILE loop that is
+    entered without a pending BREAK/CONTINUE returns without one; its condition — an expression, which may call functions —
+    cannot raise the flag -/
+theorem C11_while_consumes_break (fns : List Fn) (f : Nat) (line : Int) (c b : List Tok) (k : Nat) (s : St) (hc : ValL fns c)
+    (hs : s.brk ≠ 1 ∧ s.brk ≠ 2) :
+    (whileGo fns f line c b k s).brk ≠ 1 ∧ (whileGo fns f line c b k s).brk ≠ 2 :=
+  while_consumes_break fns f line c b k s hc hs
+
+open Sakura.Sx in
+/-- the same for FOR (the increment clause must itself not raise the flags, as `I++` and assignments do not) -/
+theorem C11_for_consumes_break (fns : List Fn) (f : Nat) (line : Int) (c n b : List Tok) (k : Nat) (s : St) (hc : ValL fns c)
+    (hn : ∀ g s, s.brk ≠ 1 ∧ s.brk ≠ 2 → (execList fns g n s).brk ≠ 1 ∧ (execList fns g n s).brk ≠ 2) (hs : s.brk ≠ 1 ∧ s.brk ≠ 2) :
+    (forGo fns f line c n b k s).brk ≠ 1 ∧ (forGo fns f line c n b k s).brk ≠ 2 :=
+  for_consumes_break fns f line c n b k s hc hn hs
 
 -- non-vacuity: the token list of `FUNCTION FA(JB=7){ RETURN(JB) } FA(); PRINT(FA())` is inside the classes
 open Sakura.Sx in
